@@ -367,6 +367,11 @@ pub enum Kind {
     TimerFire {
         id: u64,
     },
+    /// a task of the embedder changed an app's cohort hint in the shared app set
+    NeighbourMutate {
+        app: String,
+        hint: String,
+    },
     /// the embedder's timer asks the library whether `deadline` has been reached at `now`
     /// (at arm time and when the timer future resolves)
     TimerCmp {
